@@ -11,6 +11,8 @@ mod c07;
 mod syncp;
 mod codec;
 mod c18;
+mod c03;
+mod c14;
 
 #[global_allocator]
 static GLOBAL: codec::Counting = codec::Counting;
@@ -46,6 +48,8 @@ fn main() {
         "C16" => c16::run(&tier, seed, workers),
         "C05" => { let mut r = c05::run(&tier, seed, workers); r.merge(c01::run("C05", &tier, seed, workers)); r }
         "C07" => c07::run(&tier, seed, workers),
+        "C03" | "C17" => c03::run(&prop, &tier, seed, workers),
+        "C14" | "C20" => c14::run(&prop, &tier, seed, workers),
         "C18" => c18::run(&tier, seed, workers),
         "C09" => codec::run_c09(&tier, seed, workers),
         "C10" => codec::run_c10(&tier, seed, workers),
